@@ -50,6 +50,20 @@ DOTTED = [SETTINGS_MOD + '.A', SETTINGS_MOD + '.B', '[%s.A]' % SETTINGS_MOD, 'di
           "{'s': %s.A}" % SETTINGS_MOD]
 MOUNTS = ['/m1', '/m2']
 
+# custom toolboxes (`Toolbox('c8')`, `Toolbox('c9')`, registered in app.toolboxes) and their tools, made in every way:
+#   id, attribute name, toolboxes it is attached to IN THIS ORDER (the last one is the tool's own namespace), how it is made
+CUSTOM_TOOLS = [
+    ('q1', 'q1', ['c8'], 'unnamed'),            # Tool(point, callable): named by the attribute
+    ('q2', 'q2', ['c8'], 'named'),              # Tool(point, callable, name='q2')
+    ('c8p1', 'p1', ['c8'], 'named'),            # explicitly named like a tool of the default toolbox
+    ('q3', 'q3', ['c8', 'c9'], 'unnamed'),      # one Tool object attached to two toolboxes
+    ('c9p2', 'p2', ['c9'], 'unnamed'),          # named by the attribute, like a tool of the default toolbox
+]
+BOX_NAMES = ['c8', 'c9']
+BOXES = {}
+CUSTOM_KEYS = ['%s.%s.%s' % (ns, attr, a) for _id, attr, nss, _how in CUSTOM_TOOLS for ns in nss for a in ('on', 'x', 'y', 'priority')]
+GEN_KEYS = GEN_KEYS + CUSTOM_KEYS
+
 TOOL_JOURNAL = []
 _TOOLS_READY = [False]
 
@@ -84,6 +98,18 @@ def ensure_tools():
             setattr(cherrypy.tools, name, cherrypy._cptools.HandlerTool(mk(name)))
         else:
             setattr(cherrypy.tools, name, cherrypy.Tool('on_start_resource', mk(name)))
+    for ns in BOX_NAMES:
+        BOXES[ns] = cherrypy._cptools.Toolbox(ns)
+    for tid, attr, nss, how in CUSTOM_TOOLS:
+        def mkc(tid):
+            def probe_custom(**kw):
+                TOOL_JOURNAL.append((tid, canon_conf(kw), kw))
+            probe_custom.__name__ = 'probe_' + tid
+            return probe_custom
+        tool = cherrypy.Tool('on_start_resource', mkc(tid), name=attr) if how == 'named' else \
+            cherrypy.Tool('on_start_resource', mkc(tid))
+        for ns in nss:
+            setattr(BOXES[ns], attr, tool)
     _TOOLS_READY[0] = True
 
 
@@ -125,6 +151,15 @@ def gen_conf_h(rng, prov, p=0.3, scalars=False):
             c['tools.%s.z.w' % t] = gen_text(rng, prov)
     if rng.random() < p * 0.06:
         c['tools.h1.serve'] = rng.choice(['1', '0', 'True'])       # the tool answers the request itself when it is on
+    for _id, attr, nss, _how in CUSTOM_TOOLS:
+        for ns in nss:
+            if rng.random() < p * 0.3:
+                c['%s.%s.on' % (ns, attr)] = rng.choice(ON_TEXTS)
+            for a in ('x', 'y'):
+                if rng.random() < p * 0.22:
+                    c['%s.%s.%s' % (ns, attr, a)] = gen_text(rng, prov)
+            if rng.random() < p * 0.05:
+                c['%s.%s.priority' % (ns, attr)] = rng.choice(['10', '90'])
     return c
 
 
@@ -185,7 +220,7 @@ def containers_in(v, path=()):
 
 def gen_hist_case(rng, i):
     kind = 'M' if i % 9 == 8 else 'D'
-    with_disp = (i % 9 == 4)
+    with_disp = (i % 9 in (4, 6))
     spec = c02.gen_tree(rng, kind, with_disp, maxdepth=3)
     nodes = spec['nodes']
     for n, nd in enumerate(nodes):
@@ -529,7 +564,7 @@ class World:
                     m['conf'] = self.ev_conf(m['conf'])
                 if m.get('tooldeco') is not None:
                     m['tooldeco'] = [m['tooldeco'][0], self.ev_conf(m['tooldeco'][1])]
-        self.built = T.Built(self.live)
+        self.built = T.Built(self.live, instrument=True)
         for n, nd in enumerate(self.live['nodes']):
             for name, tool, kw, deco in nd.get('th', []):
                 kwv = self.ev_conf(kw)
@@ -583,6 +618,12 @@ class World:
             reqs.append(cherrypy.serving.request)
             return inner(path_info)
         app.merge({'/': {'request.dispatch': recording_dispatch, 'tools.trailing_slash.on': False}})
+        boxes = dict(app.toolboxes)          # (the class attribute is shared by all applications: a copy per app)
+        # a toolbox is served in registration order and a tool reads the toolmap of ITS OWN toolbox when it is set up:
+        # the toolbox a shared tool belongs to (c9) is registered before the other one it is reachable from (c8)
+        for ns in reversed(BOX_NAMES):
+            boxes[ns] = BOXES[ns]
+        app.toolboxes = boxes
         app.log.screen = False
         app.log.error_file = ''
         app.log.access_file = ''
@@ -669,6 +710,7 @@ class World:
     def request(self, a, path, method):
         import signal
         self.built.journal[:] = []
+        self.built.disp_log[:] = []
         self.seen_path[:] = []
         self.requests[:] = []
         TOOL_JOURNAL[:] = []
@@ -722,8 +764,11 @@ class World:
             o['config'] = None
             o['toolmap'] = {}
             o['raised'] = 'observing request.config: ' + type(e).__name__
+        custom_ids = [c[0] for c in CUSTOM_TOOLS]
         o['tools_ran'] = sorted(([n, 'page' if 'page' in kw else 'hook', sorted(kw.items(), key=repr)]
-                                 for n, kw, live in TOOL_JOURNAL), key=repr)
+                                 for n, kw, live in TOOL_JOURNAL if n not in custom_ids), key=repr)
+        o['custom_ran'] = sorted(([n, sorted(kw.items(), key=repr)] for n, kw, live in TOOL_JOURNAL if n in custom_ids), key=repr)
+        o['disp_log'] = list(self.built.disp_log)
         return o
 
     # -- the model line of the request just made ------------------------------------------------------
@@ -752,8 +797,10 @@ class World:
         # the configuration the model is evaluated on is the reference world at this moment
         secs = enc_sections_h(ref.apps[a])
         glob = enc_conf_h(ref.glob) if ref.glob else 'E'
+        boxes = ';'.join('%s:%s:%s' % (T.enc_text(ns), T.enc_text(attr), T.enc_text(nss[-1]))
+                         for _id, attr, nss, _how in CUSTOM_TOOLS for ns in nss)
         return ' '.join(['confh', self.kind, T.enc_text(method.upper()), root, na, nodes, secs, glob, T.enc_text(pi),
-                         ';'.join(th) or '-'])
+                         ';'.join(th) or '-', boxes or '-'])
 
     def hist_tool(self, n, name):
         for th in self.hist['tree']['nodes'][n].get('th', []):
@@ -876,44 +923,78 @@ def ref_conf_of(ref, obj):
     return c if isinstance(c, dict) else None
 
 
-def ref_effective(ref, a, world, o):
-    """Acceptable (effective config restricted to the generated keys, chosen handler) pairs for a
-    dispatcher-free tree: global, then level by level the `_cp_config` of the object found there and the
-    section named by that path prefix; the chosen default handler's `_cp_config` right after its owner."""
-    path_info = o['path_info']
+def ref_effective_general(root, kind, path_info, log, ran, glob, sections, conf_of, verb_conf, keys):
+    """Acceptable (effective config restricted to `keys`, chosen handler) pairs, written from the statement:
+    global, then level by level down the request path the `_cp_config` of the object found at that level and the
+    section of every path prefix that level covers (one per attribute step; all the prefixes a `_cp_dispatch`
+    consumed in one go - C02's recording wrappers say which), the chosen default handler's `_cp_config` right after
+    its owner's level.  None when the recorded dispatcher calls do not fit a plain reading of the path (a dispatcher
+    raised, added or rewrote segments)."""
     segs = [s for s in path_info.split('/') if s]
-    sections = ref.apps[a]
-    root = world.built.root
+    total = len(segs)
+    chain, wf, note = c02.ref_trail(root, segs, list(log or []))
+    if note is not None or not wf:
+        return None
+    has_idx = len(chain) >= 2 and chain[-1][1] == total and chain[-2][1] == total
+    steps = chain[:-1] if has_idx else chain
+
+    def prefix(n):
+        return '/' + '/'.join(segs[:n])
     results = []
     for with_index_section in (True, False):
-        for dlevel, chosen in default_options(root, path_info):
-            eff = dict(ref.glob)
+        # who is chosen: deepest entry with an exposed default or exposed itself
+        options = []
+        for depth in range(len(chain) - 1, -1, -1):
+            o = chain[depth][0]
+            if o is None:
+                continue
+            d = getattr(o, 'default', None)
+            if d is not None and c02._exposed(d):
+                options.append((depth, d))
+            if c02._exposed(o):
+                options.append((None, o))
+            if options:
+                break
+        if not options:
+            options = [(None, None)]
+        for dlevel, chosen in options:
+            eff = dict(glob)
 
             def upd(conf):
                 if conf:
                     eff.update(conf)
-            obj = root
-            upd(ref_conf_of(ref, obj))
-            upd(sections.get('/'))
-            if dlevel == 0:
-                upd(ref_conf_of(ref, chosen))
-            cur = ''
-            for i, s in enumerate(segs + ['index']):
-                obj = getattr(obj, s.translate(c02._PUNCT), None)
-                cur += '/' + s
-                implicit_index = (i == len(segs))
-                upd(ref_conf_of(ref, obj))
-                if not implicit_index or with_index_section:
-                    upd(sections.get(cur))
-                if dlevel == i + 1:
-                    upd(ref_conf_of(ref, chosen))
-            if world.kind == 'M' and o['ran']:
-                pid = o['ran'][0][0]
-                node, _, name = pid.partition('.')
-                if name and not pid.endswith('()'):
-                    upd(ref.meth.get((int(node), name)))
-            results.append(({k: canon(v) for k, v in eff.items() if k in GEN_KEYS}, chosen))
+            done = 0
+            for j, (obj, upto) in enumerate(steps):
+                upd(conf_of(obj))
+                if j == 0:
+                    upd(sections.get('/'))
+                for n in range(done + 1, upto + 1):
+                    upd(sections.get(prefix(n)))
+                done = max(done, upto)
+                if dlevel == j:
+                    upd(conf_of(chosen))
+            for n in range(done + 1, total + 1):        # nothing found any more: the sections still apply
+                upd(sections.get(prefix(n)))
+            if has_idx:
+                upd(conf_of(chain[-1][0]))
+            if with_index_section:
+                upd(sections.get((prefix(total) if total else '') + '/index'))
+            if has_idx and dlevel == len(chain) - 1:
+                upd(conf_of(chosen))
+            upd(verb_conf)
+            results.append(({k: canon(v) for k, v in eff.items() if k in keys}, chosen))
     return results
+
+
+def ref_effective(ref, a, world, o):
+    verb = None
+    if world.kind == 'M' and o['ran']:
+        pid = o['ran'][0][0]
+        node, _, name = pid.partition('.')
+        if name and not pid.endswith('()'):
+            verb = ref.meth.get((int(node), name))
+    return ref_effective_general(world.built.root, world.kind, o['path_info'], o.get('disp_log'), o['ran'], ref.glob,
+                                 ref.apps[a], lambda obj: ref_conf_of(ref, obj), verb, GEN_KEYS)
 
 
 def seg_prefix(name, segs):
@@ -945,8 +1026,8 @@ def oracle_request(ref, a, world, o):
                 bad.append(('key %r of request %r has the value of section %r, which is not on the request path'
                             % (k, o['path_info'], v[2:]), 'section_leak'))
     chosen_opts = None
-    if not has_disp:
-        alts = ref_effective(ref, a, world, o)
+    alts = ref_effective(ref, a, world, o)
+    if alts is not None:
         ok = [ch for c, ch in alts if c == cfg]
         if not ok:
             want = alts[0][0]
@@ -967,6 +1048,21 @@ def oracle_request(ref, a, world, o):
     if want_hooks != got_hooks:
         bad.append(('tools set up with their arguments %s differ from what the effective config turns on %s (config %s)'
                     % (got_hooks, want_hooks, cfg), 'tool_on_off'))
+    # custom toolboxes: a tool reachable as <ns>.<name> is set up when the effective <ns>.<name>.on is truthy, with
+    # the effective entries of ITS OWN namespace (the toolbox it was attached to last) - never a like-named tool's
+    want_custom = []
+    for tid, attr, nss, how in CUSTOM_TOOLS:
+        home = nss[-1]
+        pre = '%s.%s.' % (home, attr)
+        kw = {k[len(pre):]: v for k, v in cfg.items() if k.startswith(pre) and k[len(pre):] not in ('on', 'priority')}
+        for ns in nss:
+            if cfg.get('%s.%s.on' % (ns, attr), False):
+                want_custom.append([tid, sorted(kw.items(), key=repr)])
+    want_custom.sort(key=repr)
+    if want_custom != o.get('custom_ran', want_custom):
+        bad.append(('tools of the custom toolboxes ran as %s; the effective config turns on %s (config %s)'
+                    % (o['custom_ran'], want_custom, {k: v for k, v in cfg.items() if k in CUSTOM_KEYS or k.startswith('tools.p')}),
+                    'custom_toolbox'))
     # a handler-tool page handler gets its own kwargs overlaid with the effective tools.<t>.* entries
     hook_serves = bool(cfg.get('tools.h1.on', False)) and bool(cfg.get('tools.h1.serve', False))
     if chosen_opts is not None and hook_serves:
@@ -1094,7 +1190,7 @@ def run_hist(case, upto=None):
 
 
 def same_request_obs(o):
-    return {k: o[k] for k in ('status', 'ran', 'config', 'toolmap', 'tools_ran', 'path_info')}
+    return {k: o.get(k) for k in ('status', 'ran', 'config', 'toolmap', 'tools_ran', 'custom_ran', 'path_info')}
 
 
 def violations(recs):
@@ -1237,9 +1333,11 @@ def model_obs(line):
     run = dec_tools(parts['RUN'])
     ran = [[t, 'hook', sorted(c.items(), key=repr)] for t, c in run if t in TOOLS]
     ran += [[t, 'page', sorted(c.items(), key=repr)] for t, c in dec_tools(parts['H'])]
+    ids = dict(('%s.%s' % (ns, attr), tid) for tid, attr, nss, _how in CUSTOM_TOOLS for ns in nss)
+    custom = [[ids.get(t, t), sorted(c.items(), key=repr)] for t, c in dec_tools(parts.get('CRUN', '-'))]
     return {'config': {x: v for x, v in k.items() if x in GEN_KEYS},
             'toolmap': {t: tm[t] for t in TOOLS if t in tm},
-            'tools_ran': sorted(ran, key=repr)}
+            'tools_ran': sorted(ran, key=repr), 'custom_ran': sorted(custom, key=repr)}
 
 
 def check_tool_decorator_args(ctx):
@@ -1346,13 +1444,15 @@ def check_hist_cases(ctx, cases, compare_model=True):
         hooks_o = [x for x in o['tools_ran'] if x[1] == 'hook']
         if hooks_m != hooks_o:
             diffs.append('tools_ran')
+        if mo['custom_ran'] != o.get('custom_ran', mo['custom_ran']):
+            diffs.append('custom_toolbox')
         pages_m = [x for x in mo['tools_ran'] if x[1] == 'page']
         pages_o = [x for x in o['tools_ran'] if x[1] == 'page']
         hook_serves = bool(o['config'].get('tools.h1.on', False)) and bool(o['config'].get('tools.h1.serve', False))
         if pages_m != pages_o and not hook_serves:
             diffs.append('handler_tool_args')
         if diffs:
-            ctx.disagree(single, {k: o[k] for k in ('config', 'toolmap', 'tools_ran', 'status', 'path_info')}, mo,
+            ctx.disagree(single, {k: o.get(k) for k in ('config', 'toolmap', 'tools_ran', 'custom_ran', 'status', 'path_info')}, mo,
                          'request config observables differ in %s (last step of the history)' % diffs)
 
 
@@ -1362,7 +1462,7 @@ def replay(ctx, case):
         print('step %2d: %s' % (r['i'], describe(r['step'])))
         if r['obs'] is not None:
             o = r['obs']
-            print('   impl  :', json.dumps({k: o[k] for k in ('status', 'ran', 'config', 'tools_ran')}, default=repr))
+            print('   impl  :', json.dumps({k: o.get(k) for k in ('status', 'ran', 'config', 'tools_ran', 'custom_ran')}, default=repr))
         for what, sig in r['bad']:
             print('   oracle: [%s] %s' % (sig, what))
     for i, what, sig in violations(recs):
